@@ -7,10 +7,6 @@ From GTgen Require Import Params.
 Import ListNotations.
 Local Open Scope string_scope.
 
-Lemma tunnelChannel_close_shape : skel_tunnelChannel_close =
-  ["call tearDown"; "call mu.Lock"; "defer call mu.Unlock"; "defer call cancel"; "set finished"; "set err"; "set streams"].
-Proof. reflexivity. Qed.
-
 Lemma reverseChannels_add_shape : skel_reverseChannels_add =
   ["call mu.Lock"; "defer call mu.Unlock"; "set chans"; "close avail"].
 Proof. reflexivity. Qed.
